@@ -10,6 +10,7 @@ raises leaves the observation unchanged.
 from __future__ import annotations
 
 import itertools
+import typing
 
 from hypothesis import strategies as st
 
@@ -114,7 +115,7 @@ class Universe:
         KL = env()["KeyedList"]
         n = self.name
         if n == "self":
-            return KL[str, str]
+            return KL[typing.Union[str, float], str]  # (the item type admits floats too: 7.5 is refused for its key, which is no str)
         if n == "selfint":
             return KL[int, int]
         if n == "tuple":
